@@ -343,16 +343,21 @@ def check_pair_source(ctx: CheckContext, p: Program, r: Resolver, funcs: List[Fu
             continue
         found: Dict[str, Tuple[tuple, ast.AST]] = {}
         for node in body_nodes(f):
-            if isinstance(node, ast.Assign) and len(node.targets) == 1 and isinstance(node.targets[0], ast.Name) and node.targets[0].id in ("hot_utility_target", "cold_utility_target"):
+            def which(nm):
+                for suf in ("hot_utility_target", "cold_utility_target"):
+                    if isinstance(nm, str) and nm.endswith(suf):
+                        return suf
+                return None
+            if isinstance(node, ast.Assign) and len(node.targets) == 1 and isinstance(node.targets[0], ast.Name) and which(node.targets[0].id):
                 lp = loc_parts(node.value)
                 if lp:
-                    found[node.targets[0].id] = (lp, node)
+                    found[which(node.targets[0].id)] = (lp, node)
             if isinstance(node, ast.Dict):
                 for k, v in zip(node.keys, node.values):
-                    if isinstance(k, ast.Constant) and k.value in ("hot_utility_target", "cold_utility_target"):
+                    if isinstance(k, ast.Constant) and which(k.value):
                         lp = loc_parts(v)
                         if lp:
-                            found[k.value] = (lp, v)
+                            found[which(k.value)] = (lp, v)
         if len(found) == 2:
             (th, rh, ch), nh = found["hot_utility_target"]
             (tc, rc, cc), nc = found["cold_utility_target"]
